@@ -49,6 +49,12 @@ namespace cxx11_atomic {
 #   else
 #       error "Boost version 1.54 or above is needed for boost.atomic"
 #   endif
+#elif defined(KHIZMAX_LIBCDS_VERIF)
+    // instrumented atomics supplied by the model-checking harness (-I<verif>/cdsmc/include)
+#   include <cds_verif/atomic.h>
+    namespace atomics = cds_verif::atomics;
+#   define CDS_CXX11_ATOMIC_BEGIN_NAMESPACE namespace cds_verif { namespace atomics {
+#   define CDS_CXX11_ATOMIC_END_NAMESPACE }}
 #elif defined(CDS_USE_LIBCDS_ATOMIC)
     // libcds atomic
 #   include <cds/compiler/cxx11_atomic.h>
